@@ -42,7 +42,8 @@ EXPECT_ACTIONS = ['Primitive', 'Stream', 'Session', 'Web', 'Scraper', 'Processor
 
 # ------------------------------------------------------------------ TLC: design + generation
 ALL_FIXES = ['chunk_readline', 'trailer_lenient', 'ftp_reply_readline', 'ftp_two_finals', 'msdos_short', 'ftp_parent',
-             'charset_codec', 'last_modified', 'win_names', 'sitemap_gzip', 'pasv_range', 'deflate_fallback']
+             'charset_codec', 'last_modified', 'win_names', 'sitemap_gzip', 'pasv_range', 'deflate_fallback',
+             'perm_listing', 'symlink_create', 'continue_refused']
 
 
 def detect_fixes():
@@ -126,6 +127,19 @@ def detect_fixes():
             fx.add('deflate_fallback')
     except Exception:
         pass
+    m = re.search(r'preserve_permissions(.*)', src(FTPProcessorSession._fetch), re.S)
+    if m and 'except REMOTE_ERRORS' in m.group(1):
+        fx.add('perm_listing')
+    if re.search(r'except\s*\(?\s*(OSError|ValueError)', src(FTPProcessorSession._make_symlink)):
+        fx.add('symlink_create')
+    try:
+        w = BaseFileWriterSession.__new__(BaseFileWriterSession)
+        w._filename = 'x'
+        w._raise_cannot_continue_error()
+    except Exception as e:
+        from wpull.errors import ProtocolError
+        if isinstance(e, ProtocolError):
+            fx.add('continue_refused')
     return sorted(fx)
 
 
@@ -275,6 +289,24 @@ def wire_job(c):
             j['hostile'] = dict(at='data', do=('data', d['listing']))
         elif 'hostile' in d:
             j['hostile'] = d['hostile']
+    elif ctx == 'ftpperm':
+        d = G.ftp_perm_classes()[cls]
+        if 'hostile' in d:
+            j['hostile'] = d['hostile']
+        j['argv'] = ['--preserve-permissions']
+    elif ctx == 'ftpsym':
+        j['listings'] = {'/sub/': G.ftp_symlink_classes()[cls]}
+        j['argv'] = ['--retr-symlinks=off']
+    elif ctx == 'ftpcont':
+        d = G.ftp_continue_classes()[cls]
+        if 'hostile' in d:
+            j['hostile'] = d['hostile']
+        j['argv'] = ['--continue']
+        j['prefiles'] = {'f.test/h.txt': 'hh'}
+    elif ctx == 'httpcont':
+        d = G.http_continue_classes()[cls]
+        j.update(data=d['data'], close=d['close'], fail=d['fail'], path=d['path'], argv=['--continue'], cuts=None,
+                 prefiles={'b.test/h': G.BODY[:6].decode()})
     return j
 
 
@@ -315,6 +347,15 @@ def _latin(b):
     return b.decode('latin-1') if isinstance(b, (bytes, bytearray)) else b
 
 
+def _prefiles(d, j):
+    """Local files that exist before the crawl starts (--continue): {path below the -P directory: latin-1 text}."""
+    for rel, text in (j.get('prefiles') or {}).items():
+        full = os.path.join(d, rel)
+        os.makedirs(os.path.dirname(full), exist_ok=True)
+        with open(full, 'wb') as f:
+            f.write(text.encode('latin-1'))
+
+
 def run_http(j):
     from drivers import errorflow_exec as X
     from drivers.crawl_exec import read_rows
@@ -322,7 +363,8 @@ def run_http(j):
     try:
         path = j.get('path', '/h')
         fail = j.get('fail')
-        if j['ctx'] == 'page':
+        _prefiles(d, j)
+        if j['ctx'] in ('page', 'httpcont'):
             site = X.http_site(path, _latin(j['data']), j.get('close', True), j.get('cuts'), None, fail)
         else:
             site = X.http_site(path, _latin(G.resp()), True, None,
@@ -360,18 +402,24 @@ def run_ftp(j):
                 listings = {'/sub/': b'-rw-r--r-- 1 ftp ftp 3 Jan 01  2020 a.txt\r\n'}
         elif ctx == 'ftpparent':
             start = ['ftp://f.test/', 'ftp://f.test/h.txt']
+        elif ctx == 'ftpsym':
+            dirs = ('sub',)
+            target = 'ftp://f.test/sub/'
+        elif ctx == 'ftpperm':
+            target = 'ftp://f.test/a.txt'      # the first file fetched: its parent listing is not in the cache yet
         elif ctx == 'ftproot':
             target = 'ftp://f.test/'
         site = dict(hosts={'a.test': X.A_IP}, urls=[], robots={})
         db = os.path.join(d, 't.db')
         ftp = dict(files=files, dirs=dirs, listings=listings, hostile=j.get('hostile'), mlsd=j.get('mlsd'))
-        argv = X.ftp_argv(db, d, start)
+        argv = X.ftp_argv(db, d, start, extra=j.get('argv', ()))
+        _prefiles(d, j)
         if j.get('sslv'):
             argv.remove('--no-check-certificate')
         r = X.HRun(site, argv, target, fault=j.get('fault'), ftp=ftp, db_path=db, cwd=d)
         r.execute()
         rows = read_rows(db, r) if os.path.exists(db) else []
-        others = [u for u in ('ftp://f.test/', 'ftp://f.test/a.txt', 'ftp://f.test/c.txt') if u != target]
+        others = [u for u in ('ftp://f.test/', 'ftp://f.test/a.txt', 'ftp://f.test/c.txt', 'ftp://f.test/h.txt') if u != target]
         if ctx == 'ftproot':
             others = []         # the hostile URL is the start listing: nothing else is ever discovered
         return _facts(r, rows, target, others, dir_target=target.endswith('/'))
@@ -542,6 +590,7 @@ def case_label(c):
 SKIP_OK = ('rd_mailto', 'rd_data_url')
 FP_SITES = ('fp_connect', 'fp_reply_readline', 'fp_reply_parse', 'fp_reply_code', 'fp_login_code', 'fp_pasv_parse',
             'fp_data_connect', 'fp_data_read', 'fp_end_code', 'fp_listing_parse')
+PP_SITES = tuple('pp_' + x[3:] for x in FP_SITES if x != 'fp_login_code')
 REMOTE_KINDS = ('ServerError', 'AuthenticationError', 'FTPServerError', 'ProtocolError', 'SSLVerificationError',
                 'NetworkError', 'ConnectionRefused', 'DNSNotFound', 'NetworkTimedOut', 'DurationTimeout')
 # defect = (call sites, exception classes that get out): the same defect reached through a fault, a malformed
@@ -560,6 +609,9 @@ DEFECTS = [
     ('ftp-pasv-port-overflow', ('f_data_connect', 'fp_data_connect'), ('OverflowError',)),
     ('writer-makedirs-recursion', ('h_writer_process_response',), ('RecursionError',)),
     ('writer-oserror-ends-crawl', ('h_writer_process_response',), ('OSError',)),
+    ('ftp-permission-listing-unhandled', PP_SITES, REMOTE_KINDS),
+    ('ftp-symlink-creation-unhandled', ('f_symlink',), ('OSError', 'ValueError', 'FileExistsError', 'FileNotFoundError')),
+    ('continue-refused-ends-crawl', ('h_writer_continue', 'f_writer_continue'), ('OSError',)),
 ]
 
 
@@ -589,6 +641,15 @@ DEFECT_INFO = {
                                       '"." or " ": path.py:263 format(str, "02X") ValueError', 'C09-windows-filename-trailing-dot.diff'),
     'sitemap-corrupt-gzip': ('--sitemaps and a sitemap that starts with the gzip magic but is corrupt/truncated: document/sitemap.py:66 '
                              'GzipFile raises BadGzipFile(OSError) / EOFError, not caught by scraper/sitemap.py', 'C09-sitemap-corrupt-gzip.diff'),
+    'ftp-permission-listing-unhandled': ('--preserve-permissions: any protocol/network/server error while listing the parent directory '
+                                         'AFTER a file was saved (ftp.py _fetch else-branch -> _apply_unix_permissions) is outside '
+                                         '"except REMOTE_ERRORS" and ends the crawl', 'C09-ftp-permission-listing-errors.diff'),
+    'ftp-symlink-creation-unhandled': ('--retr-symlinks=off: os.symlink with a name or target from the listing (no target, name twice, '
+                                       'missing directory, NUL) raises OSError / ValueError in _make_symlink, outside any handler',
+                                       'C09-ftp-symlink-creation-errors.diff'),
+    'continue-refused-ends-crawl': ('--continue and a server that does not resume (200 to a Range request, 416, REST refused): '
+                                    'writer.py raises a bare IOError, which is not a per-URL error kind',
+                                    'C09-continue-refused-ends-crawl.diff'),
     'writer-makedirs-recursion': ('a URL path with about 1000 directory levels: os.makedirs recurses once per missing level -> RecursionError '
                                   'from writer.py:121 (inside the try, but not a REMOTE error)', None),
     'writer-oserror-ends-crawl': ('a URL path longer than PATH_MAX (or any other OSError of open/makedirs on a server-chosen name): OSError is '
